@@ -298,9 +298,52 @@ def multi_dataset(col, scratch, st, how):
     shutil.rmtree(base, ignore_errors=True)
 
 
+def argument_variants(col, scratch, kind, st):
+    """the same round trips through the rarely used arguments: explicit fsspec filesystem object / protocol name,
+    build_sindex=True on the Dask reader"""
+    import dask.dataframe as dd
+    from fsspec.implementations.local import LocalFileSystem
+    from spatialpandas import GeoDataFrame
+    from spatialpandas.io import read_parquet, read_parquet_dask, to_parquet
+    n = 13
+    df = GeoDataFrame({"v": np.arange(n) * 2, "g": make_variant(kind, st, "plain", n)}, index=make_index("named", n))
+    case = {"path": "args", "kind": kind, "subtype": st}
+    base = os.path.join(scratch, f"a{os.getpid()}")
+    shutil.rmtree(base, ignore_errors=True)
+    os.makedirs(base)
+    try:
+        fs = LocalFileSystem()
+        for tag, wkw, rkw in (("fs-object", {"filesystem": fs}, {"filesystem": fs}), ("fs-name", {}, {"filesystem": "file"}),
+                              ("storage_options", {"storage_options": {}}, {"storage_options": {}})):
+            col.count("evaluations")
+            p1 = os.path.join(base, f"{tag}.parq")
+            to_parquet(df, p1, **wkw)
+            d = diff_sig(frame_sig(df), frame_sig(read_parquet(p1, **rkw)))
+            if d:
+                col.violation("args.pandas", dict(case, variant=tag), d)
+            col.count("evaluations")
+            p2 = os.path.join(base, f"{tag}-dask.parq")
+            ddf = dd.from_pandas(df, npartitions=3)
+            ddf.to_parquet(p2, **wkw)
+            r = read_parquet_dask(p2, **rkw)
+            d = diff_sig(frame_sig(ddf.compute(scheduler="synchronous")), frame_sig(r.compute(scheduler="synchronous")))
+            if d:
+                col.violation("args.dask", dict(case, variant=tag), d)
+        col.count("evaluations")
+        rb = read_parquet_dask(p2, build_sindex=True)
+        d = diff_sig(frame_sig(ddf.compute(scheduler="synchronous")), frame_sig(rb.compute(scheduler="synchronous")))
+        if d:
+            col.violation("args.build_sindex", case, d)
+    except Exception as ex:
+        col.violation("args.raises", case, f"{type(ex).__name__}: {str(ex)[:250]}")
+    shutil.rmtree(base, ignore_errors=True)
+
+
 def plan(ctx):
     T = ctx.thorough
     jobs = []
+    for kind in O.KINDS:
+        jobs.append(("args", kind, L.SUBTYPES[(O.KINDS.index(kind) + ctx.seed) % 5]))
     for kind in O.KINDS:
         for st in L.SUBTYPES:
             for variant in VARIANTS:
@@ -341,6 +384,8 @@ def run(ctx):
                 multi_column_and_projections(col, scratch, *job[1:])
             elif job[0] == "dd":
                 dask_roundtrip(col, scratch, *job[1:])
+            elif job[0] == "args":
+                argument_variants(col, scratch, *job[1:])
             else:
                 multi_dataset(col, scratch, *job[1:])
             if j % 400 == 0:
